@@ -30,13 +30,12 @@ def tsPre : Option Str → Str
   | none => []
   | some t => t ++ [' ']
 
-theorem exPass_block {legacy : Bool} (L : List (Str × Str)) (h : ∀ kv ∈ L, labelNameOK legacy kv.1 = true)
-    (hq : ∀ kv ∈ L, '"' ∉ kv.1 ∧ '"' ∉ kv.2) : ExPass (exBlock L) := by
+theorem exPass_block {legacy : Bool} (L : List (Str × Str)) (h : ∀ kv ∈ L, labelNameOK legacy kv.1 = true) : ExPass (exBlock L) := by
   cases L with
-  | nil => exact exPass_nil
+  | nil => exact ⟨rfl, rfl⟩
   | cons kv r =>
-    exact exPass_append (exPass_item (h kv (by simp)) (hq kv (by simp)).1 (hq kv (by simp)).2)
-      (exPass_tail r (fun x hx => h x (by simp [hx])) (fun x hx => hq x (by simp [hx])))
+    exact pass_append (item_pass rbChs_safe (by decide) (h kv (by simp)))
+      (tail_pass rbChs_safe (by decide) (by decide) r (fun x hx => h x (by simp [hx])))
 
 theorem parseLabels_block {legacy : Bool} (L : List (Str × Str)) (hok : ∀ x ∈ L, labelNameOK legacy x.1 = true)
     (hnd : (L.map (·.1)).Nodup) : parseLabels legacy (exBlock L) true = .ok L := by
@@ -118,7 +117,7 @@ def exState : Option Str → RState
 
 theorem remLoop_upto_brace (P : Params) (text : Str) (Lp : List (Str × Str)) (hel : exemplarLabels P text = .ok Lp)
     (ts : Option Str) (hts : ∀ t, ts = some t → NumTok t) :
-    remLoop P text {} (tsPre ts ++ ['#', ' ', '{']) = .ok ⟨.exemplarparsedlabels, false, revOpt ts, [], [], some Lp⟩ := by
+    remLoop P text {} (tsPre ts ++ ['#', ' ', '{']) = .ok ⟨.exemplarparsedlabels, false, false, revOpt ts, [], [], some Lp⟩ := by
   cases ts with
   | none =>
     simp only [tsPre, List.nil_append, remLoop, remStep, hel, revOpt]
@@ -127,18 +126,18 @@ theorem remLoop_upto_brace (P : Params) (text : Str) (Lp : List (Str × Str)) (h
     simp only [tsPre]
     rw [List.append_assoc, remLoop_append]
     have := remLoop_timestamp P text t (tsChars_numTok (hts t rfl)) [] [] [] none
-    rw [show ({} : RAcc) = ⟨.timestamp, false, [], [], [], none⟩ from rfl, this]
+    rw [show ({} : RAcc) = ⟨.timestamp, false, false, [], [], [], none⟩ from rfl, this]
     simp only [List.cons_append, List.nil_append, remLoop, remStep, hel, revOpt]
     simp
 
 theorem remLoop_after_brace (P : Params) (text : Str) (Lp : List (Str × Str)) (T : Str) (L : List (Str × Str))
     (hpass : ExPass (exBlock L)) (etok : Str) (hetok : NumTok etok) (ets : Option Str) (hets : ∀ t, ets = some t → NumTok t) :
-    remLoop P text ⟨.exemplarparsedlabels, false, T, [], [], some Lp⟩ (exBlock L ++ '}' :: ' ' :: (etok ++ optTok ets)) =
-      .ok ⟨exState ets, false, T, etok.reverse, revOpt ets, some Lp⟩ := by
-  rw [remLoop_append, remLoop_parsedlabels P text _ false hpass.1, hpass.2]
+    remLoop P text ⟨.exemplarparsedlabels, false, false, T, [], [], some Lp⟩ (exBlock L ++ '}' :: ' ' :: (etok ++ optTok ets)) =
+      .ok ⟨exState ets, false, false, T, etok.reverse, revOpt ets, some Lp⟩ := by
+  rw [remLoop_append, remLoop_parsedlabels P text _ false false hpass.1, hpass.2]
   simp only [remLoop, remStep]
   simp only [Bool.false_eq_true, ↓reduceIte, show ('}' == '"') = false from rfl, show (' ' == '"') = false from rfl,
-    beq_self_eq_true]
+    beq_self_eq_true, show ('}' == '\\') = false from rfl, show (' ' == '\\') = false from rfl, Bool.false_and]
   rw [remLoop_append, remLoop_exvalue P text etok (tsChars_numTok hetok)]
   cases ets with
   | none => simp [optTok, remLoop, exState, revOpt]
@@ -147,7 +146,8 @@ theorem remLoop_after_brace (P : Params) (text : Str) (Lp : List (Str × Str)) (
     have hne : (etok.reverse ++ []).isEmpty = false := by
       have := hetok.1
       cases etok <;> simp at this ⊢
-    simp only [Bool.false_eq_true, ↓reduceIte, show (' ' == '"') = false from rfl, beq_self_eq_true, hne, Bool.and_false]
+    simp only [Bool.false_eq_true, ↓reduceIte, show (' ' == '"') = false from rfl, beq_self_eq_true, hne, Bool.and_false,
+      show (' ' == '\\') = false from rfl, Bool.false_and]
     rw [remLoop_exts P text t (tsChars_numTok (hets t rfl))]
     simp [exState, revOpt]
 
@@ -156,7 +156,7 @@ theorem remLoop_exemplar (P : Params) (ts : Option Str) (hts : ∀ t, ts = some 
     (hpass : ExPass (exBlock L)) (etok : Str) (hetok : NumTok etok) (ets : Option Str) (hets : ∀ t, ets = some t → NumTok t)
     (hlab : parseLabels P.legacy (exBlock L) true = .ok Lp) :
     remLoop P (tsPre ts ++ exTail L etok ets) {} (tsPre ts ++ exTail L etok ets) =
-      .ok ⟨exState ets, false, revOpt ts, etok.reverse, revOpt ets, some Lp⟩ := by
+      .ok ⟨exState ets, false, false, revOpt ts, etok.reverse, revOpt ets, some Lp⟩ := by
   have hel := exemplarLabels_text P ts hts L etok hetok ets hets
   rw [hlab] at hel
   have hsplit : tsPre ts ++ exTail L etok ets = (tsPre ts ++ ['#', ' ', '{']) ++ (exBlock L ++ '}' :: ' ' :: (etok ++ optTok ets)) := by
